@@ -136,7 +136,6 @@ func c15Triangle(c *Ctx) {
 		}
 		for l, n := range counts {
 			if n > 1 {
-				c.R.Violate(vc.Violation{Sig: "C03:target-executed-twice-in-one-build:" + l, Detail: fmt.Sprintf("triangle (load_outputs=%s): %s was executed %d times in one build; trace %v", mode, l, n, rr.Trace), Replay: replay})
 				c.R.Violate(vc.Violation{Sig: "C15:minimal-mode:target-executed-twice-in-one-build:" + l, Detail: fmt.Sprintf("triangle (load_outputs=%s): %s was executed %d times in one build; trace %v", mode, l, n, rr.Trace), Replay: replay})
 			}
 		}
@@ -150,4 +149,86 @@ func c15Triangle(c *Ctx) {
 		c.R.Violate(vc.Violation{Sig: "C15:lock-step:minimal-differs-from-all:triangle-with-lost-blobs", Detail: fmt.Sprintf("triangle d -> [x, y], y -> x with the blobs of x and y lost: mode all gives %s, minimal %s", results["all"], results["minimal"]), Replay: results})
 	}
 	c.R.Outcome("triangle|" + results["minimal"])
+}
+
+// c15SharedRerun: two dependants of ONE dependency whose blobs are lost (the cache fault of C15's quantifier) become
+// ready half a second apart; the dependency's command writes its output in two steps a second apart. In lock-step
+// under both modes: every command finds the complete dependency output (what it copies is what a from-scratch build
+// gives), the dependency's output is right at the end, and what the build recorded restores the same bytes after the
+// outputs were deleted. The oracle is on file contents only, so no timing can make a correct build fail it; the
+// sleeps only decide whether an incorrect one is noticed.
+func c15SharedRerun(c *Ctx) {
+	grog, err := vc.BuildGrog("grog", nil)
+	if err != nil {
+		c.R.BrokenCheck("%v", err)
+		return
+	}
+	base, cleanup := scratchBase(c, "c15shared")
+	defer cleanup()
+	end := "\necho \"end $GROG_TARGET\" >> \"$VTRACE\""
+	mk := func(v string) *hist.Source {
+		s := &hist.Source{Files: map[string]hist.File{"t/d.in": {Content: "d"}, "t/s.in": {Content: v}, "t/a.in": {Content: v}, "t/b.in": {Content: v}}, Toml: "num_workers = 4\n"}
+		s.Targets = append(s.Targets,
+			hist.Target{Pkg: "t", Name: "d", Inputs: []string{"d.in"}, Outputs: []string{"d.txt"}, Command: traceStart + "\nprintf part1 > d.txt\nsleep 1\nprintf part2 >> d.txt" + end},
+			hist.Target{Pkg: "t", Name: "s", Inputs: []string{"s.in"}, Outputs: []string{"s.txt"}, Command: traceStart + "\nsleep 0.5\ncat s.in > s.txt" + end},
+			hist.Target{Pkg: "t", Name: "a", Deps: []string{":d"}, Inputs: []string{"a.in"}, Outputs: []string{"a.txt"}, Command: traceStart + "\ncat d.txt a.in > a.txt" + end},
+			hist.Target{Pkg: "t", Name: "b", Deps: []string{":d", ":s"}, Inputs: []string{"b.in"}, Outputs: []string{"b.txt"}, Command: traceStart + "\ncat d.txt s.txt b.in > b.txt" + end})
+		return s
+	}
+	want := map[string]string{"t/d.txt": "part1part2", "t/s.txt": "v2", "t/a.txt": "part1part2v2", "t/b.txt": "part1part2v2v2"}
+	for _, mode := range []string{"all", "minimal"} {
+		box, err := hist.NewBox(base)
+		if err != nil {
+			c.R.BrokenCheck("%v", err)
+			return
+		}
+		s1, s2 := mk("v1"), mk("v2")
+		s1.Materialize(box.WS(), nil)
+		args := []string{"build", "//...", "--load-outputs=" + mode}
+		if r := box.Run(grog, hist.RunOpts{Args: args}); r.Exit != 0 {
+			c.R.BrokenCheck("shared re-run: preparation build failed: %s", tail(r.Output, 300))
+			box.Remove()
+			return
+		}
+		os.RemoveAll(filepath.Join(box.CacheDir(), "cas"))
+		os.Remove(filepath.Join(box.WS(), "t/d.txt"))
+		s2.Materialize(box.WS(), s1)
+		history := []string{"build", "lose every blob, delete d.txt, edit the inputs of s, a and b", "build"}
+		rr := box.Run(grog, hist.RunOpts{Args: args, Ceiling: 60e9})
+		check := func(step string, r hist.RunResult) bool {
+			replay := map[string]any{"history": history, "load_outputs": mode, "exit": r.Exit, "trace": r.Trace, "grog_output_tail": tail(r.Output, 600)}
+			if r.Exit != 0 {
+				c.R.Violate(vc.Violation{Sig: "C15:shared-dependency-with-lost-blobs:build-fails", Detail: fmt.Sprintf("load_outputs=%s, %s: grog exited %d: %s", mode, step, r.Exit, tail(r.Output, 300)), Replay: replay})
+				return false
+			}
+			for _, p := range []string{"t/a.txt", "t/b.txt", "t/d.txt", "t/s.txt"} {
+				if b, _ := os.ReadFile(filepath.Join(box.WS(), p)); string(b) != want[p] {
+					sig := "C15:command-found-a-dependency-output-that-was-being-rewritten"
+					if p == "t/d.txt" {
+						sig = "C15:dependency-output-wrong-after-it-was-re-run"
+					}
+					if step != "build" {
+						sig = "C15:outputs-recorded-after-a-re-run-restore-wrong-bytes"
+					}
+					c.R.Violate(vc.Violation{Sig: sig, Detail: fmt.Sprintf("load_outputs=%s, %s: %s is %q, a from-scratch build gives %q (//t:d writes d.txt in two steps; //t:a and //t:b both depend on it and become ready 0.5 s apart; executed %v)", mode, step, p, b, want[p], r.Trace), Replay: replay})
+					return false
+				}
+			}
+			return true
+		}
+		ok := check("build", rr)
+		c.R.AddCounts(2, 1, 2, 2)
+		c.R.Outcome(fmt.Sprintf("shared-rerun|%s|%v", mode, rr.Started()))
+		c.R.Nontrivial("shared-rerun|" + mode)
+		if ok {
+			for p := range want {
+				os.Remove(filepath.Join(box.WS(), p))
+			}
+			history = append(history, "delete all outputs", "build")
+			r3 := box.Run(grog, hist.RunOpts{Args: []string{"build", "//..."}, Ceiling: 60e9})
+			check("delete all outputs; build", r3)
+			c.R.AddCounts(1, 1, 1, 1)
+		}
+		box.Remove()
+	}
 }
